@@ -109,8 +109,7 @@ class Ctx:
 
     # ------------------------------------------------------------------ branching
     def _quick(self, extra) -> str:
-        v, _m, _w, _dt, _s = solve.z3_check(self.pc + [extra], self.cfg.feas_timeout_ms, want_model=False)
-        return v
+        return solve.quick_sat(self.pc + [extra], self.cfg.feas_timeout_ms)
 
     def decide(self, cond, tag: str = "") -> bool:
         if isinstance(cond, bool):
@@ -167,6 +166,8 @@ class Ctx:
         out: Dict[str, Any] = {}
         if model is None:
             return out
+        if isinstance(model, dict):   # values fetched from cvc5
+            return dict(model)
         for name, term in self.inputs.items():
             try:
                 val = model.eval(term, model_completion=True)
@@ -178,9 +179,10 @@ class Ctx:
     def check(self, name: str, claim, detail: str = "", classes=None) -> bool:
         """Proof obligation: pc => claim.  Afterwards the claim is assumed.
 
-        classes: optional list of (label, z3 predicate) known-finding classes. If the obligation is
-        refuted, we additionally decide whether (pc and not K_all) => claim, and whether the
-        counter-model lies inside one of the classes.
+        classes: optional list of (label, z3 predicate) *active* known-finding classes K_i.  Then the obligation is
+        decided as two queries: (pc and not K_1 ... and not claim) must be unsat (the property holds outside the known
+        classes; a model here is a NEW violation), and (pc and K_i and not claim) must be sat for some i (the finding
+        still exists; otherwise the entry is stale and the obligation simply counts as discharged).
         """
         full = f"{self.unit}/{name}"
         if isinstance(claim, bool):
@@ -190,44 +192,43 @@ class Ctx:
             self.obls.append(ObResult(full, "unsat", "simplifier", 0.0, self.path_id(), detail=detail))
             return True
         neg = z3.Not(claim)
-        v, m, backend, dt, note = solve.decide(self.pc + [neg], self.cfg.z3_timeout_ms, self.cfg.cvc5_timeout_ms)
-        res = ObResult(full, v, backend, dt, self.path_id(), note=note, detail=detail)
-        if v == "sat":
-            res.model = self._model_values(m)
-            if classes:
-                # is the failure confined to the declared classes?  (not K) => claim must be proved
-                notk = z3.And(*[z3.Not(k) for _l, k in classes]) if classes else z3.BoolVal(True)
-                v2, _m2, b2, dt2, note2 = solve.decide(self.pc + [notk, neg], self.cfg.z3_timeout_ms, self.cfg.cvc5_timeout_ms)
-                res.secs += dt2
-                if v2 == "unsat":
-                    # every counter-model is inside some class; name the one this model is in
-                    lab = ""
-                    for l, k in classes:
-                        try:
-                            if m is not None and z3.is_true(m.eval(k, model_completion=True)):
-                                lab = l
-                                break
-                        except Exception:
-                            pass
-                    res.klass = lab or classes[0][0]
-                    res.note = (res.note + f"; outside classes: proved by {b2}").strip("; ")
-                else:
-                    res.klass = ""
-                    res.note = (res.note + f"; outside classes: {v2}").strip("; ")
-                    if v2 == "sat" and _m2 is not None:
-                        res.model = self._model_values(_m2)
-        if v != "unsat" and self.cfg.keep_smt2:
+        T, CT = self.cfg.z3_timeout_ms, self.cfg.cvc5_timeout_ms
+        if classes:
+            notk = z3.And(*[z3.Not(k) for _l, k in classes])
+            v, m, backend, dt, note = solve.decide(self.pc + [notk, neg], T, CT, values=self.inputs)
+            res = ObResult(full, v, backend, dt, self.path_id(), note=note, detail=detail)
+            if v == "sat":
+                res.model = self._model_values(m)
+                res.note = (note + "; counter-model OUTSIDE the known-finding classes").strip("; ")
+            elif v == "unsat":
+                # the finding itself: still present?
+                for lab, k in classes:
+                    v2, m2, b2, dt2, n2 = solve.decide(self.pc + [k, neg], T, CT, values=self.inputs)
+                    res.secs += dt2
+                    if v2 == "sat":
+                        res.verdict = "sat"
+                        res.klass = lab
+                        res.model = self._model_values(m2)
+                        res.backend = f"{backend}+{b2}"
+                        res.note = f"outside the classes: proved by {backend}; inside [{lab}]: counter-model by {b2}"
+                        break
+                    if v2 == "unknown":
+                        res.verdict = "unknown"
+                        res.note = f"outside the classes: proved; inside [{lab}]: solver unknown"
+        else:
+            v, m, backend, dt, note = solve.decide(self.pc + [neg], T, CT, values=self.inputs)
+            res = ObResult(full, v, backend, dt, self.path_id(), note=note, detail=detail)
+            if v == "sat":
+                res.model = self._model_values(m)
+        if res.verdict != "unsat" and self.cfg.keep_smt2:
             try:
                 res.smt2 = solve.to_smt2(self.pc + [neg])
             except Exception:
                 pass
         self.obls.append(res)
         # continue the path under the claim (standard assert-then-assume)
-        try:
-            self.assume(claim)
-        except PathEnd:
-            raise
-        return v == "unsat"
+        self.assume(claim)
+        return res.verdict == "unsat"
 
     def cover(self, name: str, cond=True) -> None:
         """Reachability (anti-vacuity): this point with `cond` must be satisfiable on some path."""
